@@ -41,6 +41,16 @@ def stiffness_field(system, mag, t, v, extras):
     return out
 
 
+EXTRA12 = [p for p in synth.PAIRS21 if p not in synth.INDEPENDENT["orthorhombic"]]
+
+
+def subset_field(mask, mag, t, v):
+    """the nine orthotropic components plus the subset `mask` of the other twelve (all others absent)"""
+    full = stiffness_field("triclinic", mag, t, v, False)
+    keep = set(synth.INDEPENDENT["orthorhombic"]) | {p for i, p in enumerate(EXTRA12) if mask >> i & 1}
+    return {p: a for p, a in full.items() if p in keep}
+
+
 def check_point_set(viol, vb, cfield, t, v, cellmass, ctx_msg):
     """compare every reported average / compliance / velocity with tensor_ref at every grid point"""
     nt, nv = len(t), len(v)
@@ -92,21 +102,75 @@ def check_point_set(viol, vb, cfield, t, v, cellmass, ctx_msg):
     return npd
 
 
+def make_duck(cf, t, v, mass, c_, order="given"):
+    keys = [c_(*p) for p in cf]
+    if order == "reversed":
+        keys = keys[::-1]
+    return SimpleNamespace(
+        modulus_keys=keys, modulus_adiabatic={c_(*p): a for p, a in cf.items()},
+        modulus_isothermal={c_(*p): a * (0.97 - 0.01 * (p[0] == p[1])) for p, a in cf.items()}, dims=(len(t), len(v)),
+        elast_data=SimpleNamespace(cellmass=mass),
+        qha_calculator=SimpleNamespace(volume_base=SimpleNamespace(v_array=v, t_array=t)))
+
+
+READ_ALPHABET = ["c11t", "c12t", "c_44t", "c11", "c1122s", "s11", "s44", "bulk_modulus_voigt", "shear_modulus_reuss",
+                 "bulk_modulus_voigt_reuss_hill", "primary_velocities", "secondary_velocities"]
+
+
+def run_reads(case):
+    """mode B: a sequence of attribute reads on ONE volume-base object; every read must return what a fresh object returns
+    (no read may change what a later read sees), and the averages must still be those of the adiabatic tensor"""
+    from cij.core.calculator import Calculator, CijVolumeBaseInterface
+    from cij.util import c_
+    t, v = (numpy.array(x) for x in GRIDS["3x4"])
+    cf = stiffness_field(case["system"], MAGS["gpa"], t, v, False)
+    viol = []
+
+    def fresh():
+        duck = make_duck(cf, t, v, 40.3044, c_)
+        Calculator._calculate_compliances(duck)
+        return CijVolumeBaseInterface(duck)
+    try:
+        vb = fresh()
+        for n, name in enumerate(case["ops"]):
+            got = numpy.array(getattr(vb, name), float)
+            want = numpy.array(getattr(fresh(), name), float)
+            if not numpy.array_equal(got, want):
+                viol.append(V(f"c07:read-order-dependence:{name}", f"after reads {case['ops'][:n]}, {name} differs from a fresh object's by {float(numpy.abs(got - want).max()):.3e}"))
+                break
+        if not viol:
+            check_point_set(viol, vb, cf, t, v, 40.3044, f"after reads {case['ops']}")
+    except Exception as ex:
+        viol.append(V(f"c07:raises:{type(ex).__name__}", K.fmt_exc(ex)))
+    return {"viol": viol, "nontrivial": len(case["ops"]) > 1, "outcome": "reads-ok" if not viol else viol[0]["sig"]}
+
+
 def run_case(case):
     from cij.core.calculator import Calculator, CijVolumeBaseInterface
     from cij.util import c_
     viol = []
-    if case["kind"] == "duck":
+    if case["kind"] == "reads":
+        return run_reads(case)
+    if case["kind"] in ("duck", "subset"):
         t, v = (numpy.array(x) for x in GRIDS[case["grid"]])
+        if case["kind"] == "subset":
+            npd_total, masks = 0, case["masks"]
+            for mask in masks:
+                cf = subset_field(mask, MAGS["gpa"], t, v)
+                duck = make_duck(cf, t, v, case["mass"], c_)
+                try:
+                    Calculator._calculate_compliances(duck)
+                    vb = CijVolumeBaseInterface(duck)
+                except Exception as ex:
+                    viol.append(V(f"c07:raises:{type(ex).__name__}", f"subset mask {mask}: {K.fmt_exc(ex)}"))
+                    continue
+                extra = [EXTRA12[i] for i in range(12) if mask >> i & 1]
+                npd_total += check_point_set(viol, vb, cf, t, v, case["mass"], f"orthotropic 9 + {['c%d%d' % p for p in extra]}")
+                if len(viol) > 6:
+                    break
+            return {"viol": viol, "nontrivial": npd_total > 0, "outcome": f"subsets-ok/{len(masks)}" if not viol else viol[0]["sig"], "points": npd_total}
         cf = stiffness_field(case["system"], MAGS[case["mag"]], t, v, case["extras"])
-        keys = [c_(*p) for p in cf]
-        if case.get("order") == "reversed":
-            keys = keys[::-1]
-        duck = SimpleNamespace(
-            modulus_keys=keys, modulus_adiabatic={c_(*p): a for p, a in cf.items()},
-            modulus_isothermal={c_(*p): a * 0.97 for p, a in cf.items()}, dims=(len(t), len(v)),
-            elast_data=SimpleNamespace(cellmass=case["mass"]),
-            qha_calculator=SimpleNamespace(volume_base=SimpleNamespace(v_array=v, t_array=t)))
+        duck = make_duck(cf, t, v, case["mass"], c_, case.get("order", "given"))
         try:
             Calculator._calculate_compliances(duck)
             vb = CijVolumeBaseInterface(duck)
@@ -135,7 +199,9 @@ def run_case(case):
 def explore(ctx):
     ctx.rule = ("complete product: 9 crystal-system tensor shapes x 3 magnitudes x {non-zero components only, + zero-valued extras} x "
                 "2 grid shapes x 3 cell masses x 2 key orders on a duck calculator driving the real _calculate_compliances and "
-                "CijVolumeBaseInterface, plus real Calculators (3 data sets x 4 systems x 2 masses); every positive-definite grid point: "
+                "CijVolumeBaseInterface, all 4096 subsets of the twelve non-orthotropic components added to the nine orthotropic ones, all "
+                "ordered sequences of <=2 (<=3 thorough) attribute reads on one interface object (each read equal to a fresh object's), "
+                "plus real Calculators (3 data sets x 4 systems x 2 masses); every positive-definite grid point: "
                 "K/G Voigt, Reuss, Hill vs C_iijj, C_ijij, S_iijj, S_ijij of the full tensor, bounds, s*c = 1, rho v^2 identities in SI; "
                 "non-trivial = at least one positive-definite grid point")
     ctx.assumptions = ["tensor_ref (validated by rotational invariants in selftest)", "CODATA N_A, Rydberg, Bohr radius from scipy.constants"]
@@ -148,6 +214,15 @@ def explore(ctx):
                         for order in ("given", "reversed"):
                             cases.append({"kind": "duck", "system": system, "mag": mag, "extras": extras, "grid": grid, "mass": mass, "order": order})
     res = ctx.run(MOD, "run_case", cases, part="duck-product")
+    # every subset of the 12 non-orthotropic components added to the nine orthotropic ones (2^12), in chunks
+    chunks = [list(range(m, min(m + 64, 4096))) for m in range(0, 4096, 64)]
+    res += ctx.run(MOD, "run_case", [{"kind": "subset", "masks": ch, "grid": "3x4", "mass": 40.3044} for ch in chunks],
+                   part="component-subsets", states=4096, transitions=4096)
+    # read histories on one interface object: all ordered sequences of length <= 2 (3 in thorough) over 12 attribute reads
+    import itertools
+    seqs = [list(s) for L in ((1, 2) if ctx.quick else (1, 2, 3)) for s in itertools.product(READ_ALPHABET, repeat=L)]
+    res += ctx.run(MOD, "run_case", [{"kind": "reads", "system": "monoclinic", "ops": sq} for sq in seqs], part="read-histories",
+                   transitions=sum(len(sq) for sq in seqs))
     real = [{"kind": "calc", "data": dname, "system": s, "mass": m} for dname in ("A", "B", "C")
             for s in ("orthorhombic", "monoclinic", "cubic", "trigonal7") for m in (100.3887, 7.25)]
     res += ctx.run(MOD, "run_case", real, part="real-calculators", chunksize=1)
